@@ -253,6 +253,20 @@ def cases(draw: Any, tier: str) -> dict:
         names = ["web", "worker"] + (["db"] if d.bool() else [])
     nfiles = d.weighted([(1, 45), (2, 40), (3, 15)])
     files = [_file(d, case, layout, names, i == 0) for i in range(nfiles)]
+    if layout == "component" and nfiles >= 2 and d.pct(6):
+        # a mapping nested far deeper than usual (a deep component tree), defined in two files: "deep merge" has no depth limit
+        L = d.pick([9, 17, 20, 30])
+
+        def nest(leaf: dict) -> dict:
+            cur = leaf
+            for _ in range(L):
+                cur = {"k": cur}
+            return cur
+
+        for i, f in enumerate(files[:2]):
+            if isinstance(f.get("component"), dict):
+                f["component"]["deepsec"] = nest({"host": "h", "tls": 1} if i == 0 else {"port": d.int(1, 9)})
+        case["deep_levels"] = L
     if d.pct(4):
         files[0].pop("component", None)  # rare: nothing to run
     case["files"] = files
@@ -297,6 +311,18 @@ def cases(draw: Any, tier: str) -> dict:
         for k in p[:-1]:
             sec = sec.setdefault(k, {})
         sec[p[-1]] = copy.deepcopy(v)
+    if case.get("deep_levels") and isinstance(merged.get("component"), dict) and "deepsec" in merged["component"] and d.bool():
+        # ... and a --set option addressing its innermost level (a path of some twenty keys)
+        p = ["component", "deepsec"] + ["k"] * case["deep_levels"] + ["viaset"]
+        sec, ok = merged, True
+        for k in p[:-1]:
+            sec = sec.get(k) if isinstance(sec, dict) else None
+            if not isinstance(sec, dict) or set(sec) == {"$tag"}:
+                ok = False  # (an earlier generated --set replaced part of the chain)
+                break
+        if ok:
+            sets.append({"path": p, "value": 7})
+            sec[p[-1]] = 7
     case["sets"] = sets
     if layout == "component" and d.pct(8):
         # no configuration file at all ("read all the given configuration files, if any"): everything comes from --set
